@@ -81,7 +81,7 @@ theorem Good.close {ext : WExt} {g : Ghost} (hG : Good g) {es : List Spec.Zip.En
       | false =>
         rw [hraw] at hg
         simp only [Bool.false_eq_true, if_false] at hg
-        by_cases hov : o.f.largeFile = false ∧ UInt64.ofNat (dataOf ext o.f o.plain).length > ZIP64_BYTES_THR
+        by_cases hov : o.f.largeFile = false ∧ (UInt64.ofNat (dataOf ext o.f o.plain).length > ZIP64_BYTES_THR ∨ o.plain.length > 0xFFFFFFFF)
         · rw [if_pos hov] at hg; cases hg
         rw [if_neg hov] at hg
         cases hg
